@@ -247,7 +247,15 @@ func (k *Keys) ReadKey() (key rune, isAbort bool) {
 			}
 		}
 
-		key = []rune(string(buf))[0]
+		// Only the first key is ours: the ones read
+		// after it wait for whoever needs keys next.
+		var size int
+
+		key, size = utf8.DecodeRune(buf)
+
+		k.mutex.Lock()
+		k.buf = append(k.buf, buf[size:]...)
+		k.mutex.Unlock()
 	}
 
 	// Always mark those keys as matched, so that
